@@ -176,6 +176,9 @@ impl Exp {
                 if exps.is_empty() {
                     return Ok(LinearizationContext::from_rhs(1.0));
                 }
+                if let [operand] = exps.as_slice() {
+                    return linearize_lone_logic_operand(operand, linearizer_context);
+                }
                 let operands =
                     linearize_binary_operands(exps, linearizer_context, ValueRequirement::Exact)?;
                 let and_id = linearizer_context.and_count;
@@ -198,6 +201,9 @@ impl Exp {
             Exp::Or(exps) => {
                 if exps.is_empty() {
                     return Ok(LinearizationContext::from_rhs(0.0));
+                }
+                if let [operand] = exps.as_slice() {
+                    return linearize_lone_logic_operand(operand, linearizer_context);
                 }
                 let operands =
                     linearize_binary_operands(exps, linearizer_context, ValueRequirement::Exact)?;
@@ -1261,6 +1267,58 @@ fn linearize_binary_operands(
         .collect()
 }
 
+/// Rejects a variable that is the direct operand of a logic operator without
+/// being declared Boolean.
+fn check_logic_variable_operands(
+    exp: &Exp,
+    domain: &IndexMap<String, DomainVariable>,
+) -> Result<(), LinearizationError> {
+    let (operands, is_logic): (Vec<&Exp>, bool) = match exp {
+        Exp::Number(_) | Exp::Variable(_) => return Ok(()),
+        Exp::Abs(inner) => (vec![&**inner], false),
+        Exp::Min(exps) | Exp::Max(exps) => (exps.iter().collect(), false),
+        Exp::And(exps) | Exp::Or(exps) => (exps.iter().collect(), true),
+        Exp::Not(inner) => (vec![&**inner], true),
+        Exp::Xor(lhs, rhs) | Exp::Implies(lhs, rhs) | Exp::Iff(lhs, rhs) => {
+            (vec![&**lhs, &**rhs], true)
+        }
+        Exp::BinOp(op, lhs, rhs) => (
+            vec![&**lhs, &**rhs],
+            matches!(
+                op,
+                BinOp::And | BinOp::Or | BinOp::Xor | BinOp::Implies | BinOp::Iff
+            ),
+        ),
+        Exp::UnOp(op, inner) => (vec![&**inner], matches!(op, UnOp::Not)),
+    };
+    for operand in operands {
+        if let (true, Exp::Variable(name)) = (is_logic, operand) {
+            let declared = domain.get(name).map(|variable| variable.get_type());
+            if matches!(declared, Some(kind) if !matches!(kind, VariableType::Boolean)) {
+                return Err(LinearizationError::NonBinaryLogicOperand(Box::new(
+                    operand.clone(),
+                )));
+            }
+        }
+        check_logic_variable_operands(operand, domain)?;
+    }
+    Ok(())
+}
+
+/// A conjunction or disjunction of a single binary operand is the operand.
+fn linearize_lone_logic_operand(
+    exp: &Exp,
+    linearizer_context: &mut Linearizer,
+) -> Result<LinearizationContext, LinearizationError> {
+    let context = exp.linearize(linearizer_context, ValueRequirement::Exact)?;
+    if !is_binary_context(&context, &linearizer_context.domain) {
+        return Err(LinearizationError::NonBinaryLogicOperand(Box::new(
+            exp.clone(),
+        )));
+    }
+    Ok(context)
+}
+
 /// Declares a boolean auxiliary variable tied to the given constraints and
 /// returns it as the linearized value of a logic expression.
 fn reify_logic_variable(
@@ -1595,6 +1653,13 @@ impl Linearizer {
                     reason,
                 });
             }
+        }
+        // simplification lets a variable stand for `x or false` and `x and true`,
+        // so a variable that is a logic operand is checked to be Boolean before
+        check_logic_variable_operands(&objective.rhs, &domain)?;
+        for constraint in &constraints {
+            check_logic_variable_operands(constraint.lhs(), &domain)?;
+            check_logic_variable_operands(constraint.rhs(), &domain)?;
         }
         // bounds are inferred from the normalized rows, so that the spelling of a
         // constant (`x / -2`, `(0 - 2) * x`, a named constant) does not decide
